@@ -20,6 +20,7 @@ import (
 	"github.com/emmansun/gmsm/smx509"
 
 	"verifh/mon"
+	refsm3 "verifh/ref/sm3"
 )
 
 // ---------------------------------------------------------------------------------------------
@@ -34,6 +35,7 @@ type signerSpec struct {
 	skipCert  bool   // SignerInfoConfig.SkipCertificates: the verifier supplies the certificates
 	xSigned   bool   // extra authenticated attribute
 	xUnsigned bool   // extra unauthenticated attribute
+	encAlg    bool   // SignWithoutAttr only: the signature algorithm identifier is chosen with SetEncryptionAlgorithm (the key's own identifier: rsaEncryption, the curve, SM2-1)
 }
 
 func (s signerSpec) String() string {
@@ -41,7 +43,7 @@ func (s signerSpec) String() string {
 	for _, f := range []struct {
 		b bool
 		n string
-	}{{s.noAttr, "noattr"}, {s.chain, "chain"}, {s.skipCert, "skipcert"}, {s.xSigned, "xsigned"}, {s.xUnsigned, "xunsigned"}} {
+	}{{s.noAttr, "noattr"}, {s.chain, "chain"}, {s.skipCert, "skipcert"}, {s.xSigned, "xsigned"}, {s.xUnsigned, "xunsigned"}, {s.encAlg, "setencalg"}} {
 		if f.b {
 			o += "+" + f.n
 		}
@@ -117,6 +119,7 @@ type built struct {
 	ees     []*ee
 	extra   []*smx509.Certificate // certificates the verifier adds (skipCert)
 	w       *world
+	alt     []byte // staged overwrite "P1": what the caller's content buffer held after the constructor returned
 }
 
 var oidExtraAttr = asn1.ObjectIdentifier{1, 2, 3, 4, 5, 6, 16}
@@ -126,6 +129,12 @@ func buildSigned(c *mon.Case, w *world, s signedSpec) (*built, error) {
 }
 
 func buildSignedWith(c *mon.Case, w *world, s signedSpec, opt func(i int) eeOpt) (*built, error) {
+	return buildSignedPlan(c, w, s, opt, nil)
+}
+
+// buildSignedPlan: plan == nil draws the shape of the caller's content buffer and whether the caller overwrites it
+// before Finish; otherwise the plan fixes both (see bufPlan).
+func buildSignedPlan(c *mon.Case, w *world, s signedSpec, opt func(i int) eeOpt, plan *bufPlan) (*built, error) {
 	b := &built{spec: s, w: w}
 	for i, ss := range s.signers {
 		e, err := w.newEE(c.R, ss.kind, ss.iss, opt(i))
@@ -139,9 +148,12 @@ func buildSignedWith(c *mon.Case, w *world, s signedSpec, opt func(i int) eeOpt)
 	} else {
 		b.content = c.R.Bytes(s.n)
 	}
+	// the library sees the content / digest in a caller buffer of a drawn shape; b.content stays the private original
+	var hc *held
 	if s.api == "cfca" {
 		e := b.ees[0]
 		var err error
+		stage := "cfca.SignMessageAttach"
 		ok := c.Call("cfca.Sign*", func() {
 			switch {
 			case s.digestOnly:
@@ -149,7 +161,9 @@ func buildSignedWith(c *mon.Case, w *world, s signedSpec, opt func(i int) eeOpt)
 				raw := c.R.Bytes(s.n)
 				b.content, err = sm2.CalculateSM2Hash(e.cert.PublicKey.(*ecdsa.PublicKey), raw, nil)
 				if err == nil {
-					b.der, err = cfca.SignDigestDetach(b.content, e.cert, e.key)
+					stage = "cfca.SignDigestDetach"
+					hc = hold(c, "digest", b.content, shapeFor(c, plan, len(b.content)))
+					b.der, err = cfca.SignDigestDetach(hc.s, e.cert, e.key)
 				}
 				if err == nil {
 					if e2 := cfca.VerifyMessageDetach(b.der, raw); e2 != nil {
@@ -157,35 +171,66 @@ func buildSignedWith(c *mon.Case, w *world, s signedSpec, opt func(i int) eeOpt)
 					}
 				}
 			case s.detached:
-				b.der, err = cfca.SignMessageDetach(b.content, e.cert, e.key)
+				stage = "cfca.SignMessageDetach"
+				hc = hold(c, "content", b.content, shapeFor(c, plan, s.n))
+				b.der, err = cfca.SignMessageDetach(hc.s, e.cert, e.key)
 			default:
-				b.der, err = cfca.SignMessageAttach(b.content, e.cert, e.key)
+				hc = hold(c, "content", b.content, shapeFor(c, plan, s.n))
+				b.der, err = cfca.SignMessageAttach(hc.s, e.cert, e.key)
 			}
 		})
 		if !ok {
 			return nil, fmt.Errorf("panic")
 		}
+		hc.audit(stage)
+		if err == nil {
+			hc.scribble()
+		}
 		return b, err
 	}
 	var sd *pkcs7.SignedData
 	var err error
+	what := "content"
+	if s.digestOnly {
+		what = "digest"
+	}
+	hc = hold(c, what, b.content, shapeFor(c, plan, len(b.content)))
+	stage := ""
+	if plan != nil {
+		stage = plan.stage
+	} else if c.R.Bool() {
+		stage = "P2"
+	}
 	ok := c.Call("pkcs7 sign", func() {
 		switch {
 		case s.digestOnly && s.sm:
-			sd, err = pkcs7.NewSMSignedDataWithDigest(b.content)
+			sd, err = pkcs7.NewSMSignedDataWithDigest(hc.s)
 		case s.digestOnly:
-			sd, err = pkcs7.NewSignedDataWithDigest(b.content)
+			sd, err = pkcs7.NewSignedDataWithDigest(hc.s)
 		case s.sm:
-			sd, err = pkcs7.NewSMSignedData(b.content)
+			sd, err = pkcs7.NewSMSignedData(hc.s)
 		default:
-			sd, err = pkcs7.NewSignedData(b.content)
+			sd, err = pkcs7.NewSignedData(hc.s)
 		}
 		if err != nil {
 			return
 		}
+		hc.audit("NewSignedData")
+		if stage == "P1" {
+			b.alt = hc.scribble()
+		}
+		encSet := false
 		for i, ss := range s.signers {
 			e := b.ees[i]
 			sd.SetDigestAlgorithm(digestOIDs[ss.digest])
+			switch {
+			case ss.noAttr && ss.encAlg:
+				sd.SetEncryptionAlgorithm(ownSignatureOID(ss.kind))
+				encSet = true
+			case encSet: // back to "infer it from this signer's key"
+				sd.SetEncryptionAlgorithm(nil)
+				encSet = false
+			}
 			cfg := pkcs7.SignerInfoConfig{SkipCertificates: ss.skipCert}
 			if ss.xSigned {
 				cfg.ExtraSignedAttributes = []pkcs7.Attribute{{Type: oidExtraAttr, Value: fmt.Sprintf("signed-%d", i)}}
@@ -224,27 +269,75 @@ func buildSignedWith(c *mon.Case, w *world, s signedSpec, opt func(i int) eeOpt)
 			}
 			sd.AddCertificate(x.cert)
 		}
+		hc.audit("SignedData.AddSigner")
+		// every signer has signed: a caller may reuse its buffer before Finish
+		if stage == "P2" {
+			hc.scribble()
+		}
 		if s.detached {
 			sd.Detach()
+		}
+		if plan != nil {
+			var first []byte
+			if first, err = sd.Finish(); err != nil {
+				return
+			}
+			for i := range first { // the caller consumes and reuses the returned slice before the next call on the builder
+				first[i] ^= 0x5c
+			}
+			c.Event("buffers/returned_slice_overwritten_before_next_call", 1)
+			if s.detached {
+				sd.Detach()
+			}
 		}
 		b.der, err = sd.Finish()
 	})
 	if !ok {
 		return nil, fmt.Errorf("panic")
 	}
+	hc.audit("SignedData.Finish")
+	if err == nil {
+		hc.scribble()
+	}
 	return b, err
+}
+
+func shapeFor(c *mon.Case, plan *bufPlan, n int) bufShape {
+	if plan != nil {
+		return plan.shape
+	}
+	return anyShape(c.R, n, 16)
+}
+
+// ownSignatureOID is the identifier of the key's own algorithm as a caller of SetEncryptionAlgorithm would choose it
+// (what OpenSSL writes for RSA; the verifier accepts the curve identifiers for ECDSA and pairs them with the digest).
+func ownSignatureOID(k keyKind) asn1.ObjectIdentifier {
+	switch {
+	case k.isRSA():
+		return pkcs7.OIDEncryptionAlgorithmRSA
+	case k == kP256:
+		return pkcs7.OIDEncryptionAlgorithmECDSAP256
+	case k == kP384:
+		return pkcs7.OIDEncryptionAlgorithmECDSAP384
+	}
+	return pkcs7.OIDDigestEncryptionAlgorithmSM2
 }
 
 // verify parses and verifies msg the way the intended verifier of this message does.
 // p is returned whenever parsing succeeded; err == nil means "verified".
 func (b *built) verify(msg []byte) (p *pkcs7.PKCS7, err error) {
+	return b.verifyWith(msg, b.content)
+}
+
+// verifyWith is verify with the detached content / digest taken from the given slice.
+func (b *built) verifyWith(msg, content []byte) (p *pkcs7.PKCS7, err error) {
 	s := b.spec
 	if s.api == "cfca" {
 		switch {
 		case s.digestOnly:
-			err = cfca.VerifyDigestDetach(msg, b.content)
+			err = cfca.VerifyDigestDetach(msg, content)
 		case s.detached:
-			err = cfca.VerifyMessageDetach(msg, b.content)
+			err = cfca.VerifyMessageDetach(msg, content)
 		default:
 			err = cfca.VerifyMessageAttach(msg)
 		}
@@ -256,7 +349,7 @@ func (b *built) verify(msg []byte) (p *pkcs7.PKCS7, err error) {
 			return nil, fmt.Errorf("cfca verified but pkcs7.Parse fails: %v", perr)
 		}
 		if s.detached || s.digestOnly {
-			p.Content = b.content
+			p.Content = content
 		}
 		return p, nil
 	}
@@ -265,8 +358,14 @@ func (b *built) verify(msg []byte) (p *pkcs7.PKCS7, err error) {
 		return nil, err
 	}
 	if s.detached || s.digestOnly {
-		p.Content = b.content
+		p.Content = content
 	}
+	return p, b.verifyParsed(p)
+}
+
+// verifyParsed runs the verification variant of the message description on a parsed object whose Content is set.
+func (b *built) verifyParsed(p *pkcs7.PKCS7) (err error) {
+	s := b.spec
 	if len(b.extra) > 0 {
 		p.Certificates = append(p.Certificates, b.extra...)
 	}
@@ -283,7 +382,7 @@ func (b *built) verify(msg []byte) (p *pkcs7.PKCS7, err error) {
 	default:
 		err = p.Verify()
 	}
-	return p, err
+	return err
 }
 
 var cfcaOpaque = &pkcs7.PKCS7{}
@@ -312,6 +411,11 @@ var rsaFamily = map[string]bool{
 	pkcs7.OIDEncryptionAlgorithmRSA.String(): true, pkcs7.OIDEncryptionAlgorithmRSASHA1.String(): true,
 	pkcs7.OIDEncryptionAlgorithmRSASHA256.String(): true, pkcs7.OIDEncryptionAlgorithmRSASHA384.String(): true,
 	pkcs7.OIDEncryptionAlgorithmRSASHA512.String(): true,
+}
+
+var ecCurveFamily = map[string]bool{
+	pkcs7.OIDEncryptionAlgorithmECDSAP256.String(): true, pkcs7.OIDEncryptionAlgorithmECDSAP384.String(): true,
+	pkcs7.OIDEncryptionAlgorithmECDSAP521.String(): true,
 }
 
 func lp(dst, b []byte) []byte {
@@ -349,6 +453,10 @@ func semOf(p *pkcs7.PKCS7, digestMode bool) sem {
 		switch {
 		case rsaFamily[e]:
 			ss.alg = d + "/rsa"
+		case ecCurveFamily[e]:
+			// a curve identifier in the place of the signature algorithm (a caller's SetEncryptionAlgorithm choice): the
+			// verifier reads all three as "ECDSA, hash named by the digest algorithm"; the curve is the certificate's
+			ss.alg = d + "/ecdsa"
 		case len(si.AuthenticatedAttributes) == 0 || digestMode:
 			ss.alg = "-/" + e
 		default:
@@ -622,6 +730,39 @@ func roundTripSigned(c *mon.Case, b *built) bool {
 			}
 		}
 	}
+	// the accessors a verifier uses to learn who signed and what was signed
+	if s.api == "pkcs7" {
+		var only *smx509.Certificate
+		if c.Call("GetOnlySigner", func() { only = p.GetOnlySigner() }) {
+			switch {
+			case len(s.signers) == 1 && (only == nil || !bytes.Equal(only.Raw, b.ees[0].cert.Raw)):
+				c.Fail("mismatch", "GetOnlySigner does not return the certificate of the only signer (got nil: %v); message: %v", only == nil, s)
+			case len(s.signers) > 1 && only != nil:
+				c.Fail("mismatch", "GetOnlySigner returns a certificate for a message with %d signers; message: %v", len(s.signers), s)
+			}
+		}
+		if len(p.Signers) > 0 && len(p.Signers[0].AuthenticatedAttributes) > 0 {
+			// signerInfos is a SET OF: the first parsed signer need not be the first that was added
+			dname := ""
+			for name, oid := range digestOIDs {
+				if oid.Equal(p.Signers[0].DigestAlgorithm.Algorithm) {
+					dname = name
+				}
+			}
+			var md []byte
+			var err error
+			if c.Call("UnmarshalSignedAttribute", func() { err = p.UnmarshalSignedAttribute(pkcs7.OIDAttributeMessageDigest, &md) }) && dname != "" {
+				want := b.content
+				if !s.digestOnly {
+					want = refDigest(dname, b.content)
+				}
+				c.Event("roundtrip/messageDigest_attribute_compared", 1)
+				if err != nil || !bytes.Equal(md, want) {
+					c.Fail("mismatch", "messageDigest attribute of the first signer is %x (err %v), the %s digest of the content is %x; message: %v", md, err, dname, want, s)
+				}
+			}
+		}
+	}
 	// every DER object produced is a fixed point of the BER normaliser
 	checkDERFixedPoints(c, b.der)
 	// supplied content / digest that differs must not verify
@@ -672,6 +813,68 @@ func roundTripSigned(c *mon.Case, b *built) bool {
 		}
 	}
 	return true
+}
+
+// refDigest hashes with the standard library and, for SM3, with the reference model (not the library under test).
+func refDigest(d string, data []byte) []byte {
+	if d == "sm3" {
+		h := refsm3.Sum(data)
+		return h[:]
+	}
+	return plainDigest(d, data)
+}
+
+// wrongLengthDigest: digest-only signing with a digest that is one byte short. The library may refuse it; if it
+// produces a message, that message is held to the round-trip law for the value that was handed over.
+func wrongLengthDigest(c *mon.Case, b *built) {
+	s := b.spec
+	if !s.digestOnly || s.api != "pkcs7" {
+		return
+	}
+	short := clone(b.content[:len(b.content)-1])
+	e, g := b.ees[0], s.signers[0]
+	var der []byte
+	var err error
+	if !c.Call("digest-only signing with a short digest", func() {
+		var sd *pkcs7.SignedData
+		if s.sm {
+			sd, err = pkcs7.NewSMSignedDataWithDigest(short)
+		} else {
+			sd, err = pkcs7.NewSignedDataWithDigest(short)
+		}
+		if err != nil {
+			return
+		}
+		sd.SetDigestAlgorithm(digestOIDs[g.digest])
+		if g.noAttr {
+			err = sd.SignWithoutAttr(e.cert, e.key, pkcs7.SignerInfoConfig{})
+		} else {
+			err = sd.AddSigner(e.cert, e.key, pkcs7.SignerInfoConfig{})
+		}
+		if err == nil {
+			der, err = sd.Finish()
+		}
+	}) {
+		return
+	}
+	if err != nil {
+		c.Event("digest/short_digest_refused", 1)
+		return
+	}
+	c.Event("digest/short_digest_signed", 1)
+	var verr error
+	pi := mon.Try(func() {
+		var p *pkcs7.PKCS7
+		if p, verr = pkcs7.Parse(der); verr == nil {
+			p.Content = short
+			verr = p.VerifyAsDigest()
+		}
+	})
+	if pi != nil {
+		c.Fail("panic", "verifying a digest-only message over a %d-byte digest panics: %v; message: %v", len(short), pi.Value, s)
+	} else if verr != nil {
+		c.Fail("reject", "the library signed a %d-byte digest (%s) without complaint, the message does not verify against it: %v; message: %v", len(short), g.digest, verr, s)
+	}
 }
 
 // checkDERFixedPoints runs the BER normaliser on every element of a DER object.
@@ -782,6 +985,7 @@ func genSigned(r *mon.Rand, t int, lens []int, small bool) signedSpec {
 		sg.xSigned = !sg.noAttr && r.Intn(4) == 0
 		sg.xUnsigned = !sg.noAttr && r.Intn(4) == 0
 		sg.skipCert = r.Intn(8) == 0
+		sg.encAlg = sg.noAttr && r.Intn(3) == 0
 		s.sm = sg.kind.isSM2() && r.Intn(4) != 0 || !sg.kind.isSM2() && r.Intn(6) == 0
 		s.extraCert = r.Intn(6) == 0
 		s.signers = []signerSpec{sg}
@@ -826,6 +1030,7 @@ func genSigned(r *mon.Rand, t int, lens []int, small bool) signedSpec {
 			sg.noAttr = noAttrAll || r.Intn(3) == 0
 			sg.chain = r.Bool()
 			sg.xUnsigned = !sg.noAttr && r.Intn(4) == 0
+			sg.encAlg = sg.noAttr && r.Intn(3) == 0
 			s.signers = append(s.signers, sg)
 		}
 		s.sm = r.Bool()
@@ -842,6 +1047,9 @@ func genSigned(r *mon.Rand, t int, lens []int, small bool) signedSpec {
 
 func setup(x *mon.Ctx) *world {
 	if err := tlvSelfTest(); err != nil {
+		x.HarnessError("%v", err)
+	}
+	if err := refsm3.SelfTest(); err != nil {
 		x.HarnessError("%v", err)
 	}
 	w, err := getWorld()
@@ -899,7 +1107,9 @@ func signedRoundTrip(x *mon.Ctx) {
 				c.End()
 				continue
 			}
-			roundTripSigned(c, b)
+			if roundTripSigned(c, b) {
+				wrongLengthDigest(c, b)
+			}
 			c.End()
 		}
 	}
